@@ -58,7 +58,14 @@ Inductive der_order := OrdDeclaration | OrdDependency | OrdUnknown.
 Inductive closure_third := ThirdParamRecords | ThirdNumericByName | ThirdBaseValues | ThirdUnknown.
 Inductive jac_layout := JacEqsByVars | JacUnknown.
 Inductive eqs_order := EqsByVarNames | EqsUnknown.
-Inductive lam_args := LamTimeVarsPars | LamUnknown.
+(** lambdify(("time", <state names>, parameter names), jac): the state names are
+    self.model.get_variable_names() (LamTimeVarsPars, shipped) or list(y0) = the KEYS of the initial-state
+    mapping the simulator holds, in their order (LamTimeY0KeysPars: seeded change C12-5, a regression) *)
+Inductive lam_args := LamTimeVarsPars | LamTimeY0KeysPars | LamUnknown.
+(** how the symbols of the model variables are created: plain sympy.Symbol(name) (list_of_symbols), or
+    sympy.Symbol(name, nonnegative=True) (seeded change C12-4, a regression: SymPy then decides sign tests on
+    variables at conversion time -- coq/symbolic/SignFold.v) *)
+Inductive var_symbols := VarSymPlain | VarSymNonneg | VarSymUnknown.
 Inductive sym_table := SymVarsParsData | SymVarsParsDataSurr | SymUnknown.
 Inductive stat_term := StatFloatTimesRate | StatUnknown.
 Inductive dyn_term := DynListTimesRate | DynCoefTimesRate | DynUnknown.
@@ -75,7 +82,8 @@ Record sym_facts := mkSymFacts {
   sf_lam : lam_args ;             (* lambdify(("time", variable names, parameter names), jac) *)
   sf_third : closure_third ;      (* what the closure passes as third argument *)
   sf_fallback : fallback_kind ;   (* try: ... except Exception: warn; jac_fn stays None *)
-  sf_time : time_arg              (* first argument of the closure: t | t + t_shift (absolute time after an override) *)
+  sf_time : time_arg ;            (* first argument of the closure: t | t + t_shift (absolute time after an override) *)
+  sf_varsym : var_symbols         (* variables = {name: Symbol(name)}  |  Symbol(name, nonnegative=True) *)
 }.
 
 (** ---- outcomes ------------------------------------------------------------------------- *)
@@ -293,6 +301,28 @@ Section WithSymPy.
     match to_symbolic F m with
     | SymErr e => JacNone e
     | SymOk eqs => JacFn (jacobian eqs (m_vars m)) (m_vars m) (map fst (m_pars m))
+    end.
+
+  (** the names the lambdified function unpacks the state vector into, given the keys of the simulator's
+      initial-state mapping [self.y0] in their order (with y0=None these are the model's variables in
+      declaration order: self.y0 = model.get_initial_conditions()).  The state vector itself is ALWAYS in
+      model variable order: tuple(y0[k] for k in self.model.get_variable_names()). *)
+  Definition lam_vnames (F : sym_facts) (m : smodel) (y0keys : list name) : option (list name) :=
+    match sf_lam F with
+    | LamTimeVarsPars => Some (m_vars m)
+    | LamTimeY0KeysPars => Some y0keys
+    | LamUnknown => None
+    end.
+
+  (** _initialise_integrator of a simulator constructed with an explicit y0 mapping; None = unmodelled *)
+  Definition init_jac_y0 (F : sym_facts) (m : smodel) (y0keys : list name) : option jac_state :=
+    match lam_vnames F m y0keys with
+    | None => None
+    | Some vn =>
+        Some match to_symbolic F m with
+             | SymErr e => JacNone e
+             | SymOk eqs => JacFn (jacobian eqs (m_vars m)) vn (map fst (m_pars m))
+             end
     end.
 
   (** what a Python name is bound to inside the lambdified function *)
